@@ -152,6 +152,29 @@ func c05CLI(c *mon.Ctx, aText, bText string, o OptSet, yaml bool) {
 	}
 }
 
+
+// sharedIdentityDoc builds an array (at the root or under a key) of objects in
+// which several members share the value of "id" while differing elsewhere, and
+// some lack "id" altogether: the SetKeys precondition does not hold, but a
+// document is still equal to itself.
+func sharedIdentityDoc(r *gen.RNG) any {
+	var arr []any
+	for k := r.Range(2, 5); k > 0; k-- {
+		m := map[string]any{"v": float64(r.Intn(4))}
+		if r.Chance(0.75) {
+			m["id"] = float64(r.Intn(2))
+		}
+		if r.Chance(0.4) {
+			m["w"] = gen.Pick(r, []any{"x", []any{1.0, 2.0}, map[string]any{"p": 1.0}})
+		}
+		arr = append(arr, m)
+	}
+	if r.Chance(0.5) {
+		return map[string]any{"items": arr, "n": 1.0}
+	}
+	return arr
+}
+
 func init() {
 	p := &mon.Property{
 		ID: "C05",
@@ -159,7 +182,7 @@ func init() {
 			"verdict compares len(Diff)==0, Equals and an independent oracle (ref.Canon / ref.EqPrec) pairwise; CLI: exit status of the three binaries " +
 			"on a sample of the same pairs; non-trivial = operands differ textually; distinct = distinct (a, b, options)",
 		Floors: map[string]int{"oracle_equal": 5000, "oracle_unequal": 5000, "equal_but_textually_different": 2000, "cli_runs": 500,
-			"cli_status_0": 100, "cli_status_1": 100, "a_is_patch_result": 3000, "b_is_patch_result": 3000},
+			"cli_status_0": 100, "cli_status_1": 100, "same_document_shared_identities": 3000, "a_is_patch_result": 3000, "b_is_patch_result": 3000},
 		Assumptions: []string{
 			"oracle: ref.Canon under the reading of the option set; ref.EqPrec for Precision",
 			"SetKeys inputs satisfy the key precondition; MERGE inputs include nulls in the library leg (the biconditional is not restricted to null-free documents), the CLI leg keeps them null-free",
@@ -224,6 +247,20 @@ func init() {
 					return
 				}
 				c05Judge(c, a, b, o, "confusable")
+			},
+		})
+	}
+	for _, o := range []OptSet{OptKeys1, OptSetKeys1, OptKeys2} {
+		o := o
+		p.Strata = append(p.Strata, mon.Stratum{
+			Name: "same-document-shared-identities/" + o.Name,
+			N:    qt(3000, 150000),
+			Run: func(c *mon.Ctx, i int) {
+				// a document against itself (second parse of the same text): equal under every reading,
+				// also when several members share a key value or lack the key
+				a := sharedIdentityDoc(c.R)
+				c.Feature("same_document_shared_identities")
+				c05Judge(c, ref.ToJSON(a), ref.ToJSON(a), o, "same-document")
 			},
 		})
 	}
